@@ -329,8 +329,12 @@ let run () =
        if Array.length f > 0 && f.(0).[0] <> '#' then
          match f.(0) with
          | "root" -> mkdirs [cs "stage"]; mkdirs [cs "systmp"]
-         | "writer" -> writer := (match f.(1) with "none" -> WNone | "plain" -> WPlain (n_of_string f.(2)) | _ -> WSharded (n_of_string f.(2), n_of_string f.(3)))
-         | "reader" -> readers := !readers @ [ (match f.(1) with "plain" -> RPlain (int_of_string f.(2)) | _ -> RSharded (int_of_string f.(2), n_of_string f.(3))) ]
+         | "writer" -> writer := (match f.(1) with "none" -> WNone | "plain" -> WPlain (n_of_string f.(2))
+                                  | "auto" -> (match builder_writer [cs "w"] (n_of_string f.(2)) (n_of_string f.(3)) with FPlain (_, c) -> WPlain c | FSharded (_, n, c) -> WSharded (n, c))
+                                  | _ -> WSharded (n_of_string f.(2), n_of_string f.(3)))
+         | "reader" -> readers := !readers @ [ (match f.(1) with "plain" -> RPlain (int_of_string f.(2))
+                                                    | "auto" -> (match builder_reader [] (n_of_string f.(3)) with FPlain _ -> RPlain (int_of_string f.(2)) | FSharded (_, n, _) -> RSharded (int_of_string f.(2), n))
+                                                    | _ -> RSharded (int_of_string f.(2), n_of_string f.(3))) ]
          | "checker" -> checker := f.(1)
          | "autosync" -> autosync := (f.(1) = "1")
          | "umask" -> umask := int_of_string ("0o" ^ f.(1))
